@@ -542,10 +542,12 @@ class World:
                 return [world.RecTrigger(t) for t in world.op_dom]
 
         base_cls = getattr(self.domain_ops, mode)
-        cls = type("RecOp", (base_cls,), {
-            "engine_kls": staticmethod(getattr(self.RecEngine, mode)),
-            "customize_engine": lambda self_, engine: world.attach(engine),
-        })
+        def make_engine(*args, **kw):
+            engine = getattr(world.RecEngine, mode)(*args, **kw)
+            world.attach(engine)  # recording starts with the engine's life (a retried `start` builds a new one)
+            return engine
+
+        cls = type("RecOp", (base_cls,), {"engine_kls": staticmethod(make_engine)})
         obs = self.observer()
         if mode == "replace":
             self.op = cls(Domain(), Repo(), self.fake_pkg(), self.fake_pkg(), obs, root)
@@ -823,6 +825,8 @@ def random_op_history(r_, uni, steps):
         return all(n in BUILTIN_BY_MODE[mode] for n in names)
 
     ok = [t for t in fakes if registrable(t) and (uni["act"][t]["k"] != "register" or registrable(uni["act"][t]["t"]))]
+    if r_.random() < 0.15:
+        ok = fakes  # now and then an operation is handed a trigger its engine refuses
     fmt = [r_.choice(ok) for _ in range(r_.randint(0, 2))] if ok else []
     dom = [r_.choice(ok) for _ in range(r_.randint(1, 5))] if ok else []
     hist = [dict(ev="opnew", m=mode, fmt=fmt, dom=dom)]
